@@ -51,6 +51,20 @@ def _insert_shape(f, names_var, index='index'):
   if len(ins) == 1 and not whiles and astu.src(ins[0].args[0]) == index and not any(isinstance(n, (ast.For, ast.ListComp)) or (isinstance(n, ast.BinOp) and isinstance(n.op, ast.Mult)) or
                                                                                    (isinstance(n, ast.Call) and astu.call_tail(n) in ('extend', 'append')) for n in astu.body_walk(f.node)):
     return 'off-by-one'  # no padding at all: list.insert beyond the end appends, the name lands on an earlier axis
+  if len(ins) == 1 and not whiles and astu.src(ins[0].args[0]) == index:
+    # padding written as v.extend([None] * (index - len(v))) / v += [None] * (...): the count must be index - len(v)
+    pads = [x.args[0] for x in astu.func_calls(f) if astu.src(x.func) == '%s.extend' % names_var and x.args] + \
+           [n.value for n in astu.body_walk(f.node) if isinstance(n, ast.AugAssign) and astu.src(n.target) == names_var]
+    for pz in pads:
+      if isinstance(pz, ast.BinOp) and isinstance(pz.op, ast.Mult):
+        lst, cnt = (pz.left, pz.right) if isinstance(pz.left, ast.List) else (pz.right, pz.left)
+        if isinstance(lst, ast.List) and len(lst.elts) == 1 and astu.is_const(lst.elts[0], None):
+          txt = astu.src(cnt).replace(' ', '')
+          want = ('%s-len(%s)' % (index, names_var), 'max(0,%s-len(%s))' % (index, names_var), 'max(%s-len(%s),0)' % (index, names_var))
+          if txt in want:
+            return ins[0].args[1]
+          if index in txt and 'len(%s)' % names_var in txt:
+            return 'off-by-one'
   if len(whiles) != 1 or len(ins) != 1:
     return None
   w = whiles[0]
